@@ -35,6 +35,8 @@ type cdpRunner struct {
 	panicked bool
 	// panicIsViolation: only C15 turns an escaping block-hook panic into a violation
 	panicIsViolation bool
+	// beforeEsmRedemption, when set, is called instead of the block whose begin blocker performs the redemption
+	beforeEsmRedemption func()
 }
 
 type cdpCfg struct {
@@ -384,6 +386,12 @@ func (r *cdpRunner) esmPhase(app uint64) {
 	r.cfg.maxGap = saved
 	// the cool-off period ends; the begin blocker redeems vaults, stable-mint vaults and the collector, then the shares
 	for c.Header.Time.Before(r.last.ESM[app].EndTime.Add(time.Minute)) && !r.panicked {
+		if r.beforeEsmRedemption != nil && !c.Header.Time.Add(20*time.Minute).Before(r.last.ESM[app].EndTime.Add(time.Second)) {
+			r.beforeEsmRedemption() // explores and runs the block in which the redemption hooks do their work
+			r.beforeEsmRedemption = nil
+			r.last = u.snap()
+			continue
+		}
 		r.block(20 * time.Minute)
 	}
 	for i := 0; i < 4 && !r.panicked; i++ {
